@@ -88,7 +88,8 @@ KAPPA_FAMILY_WEIGHTS = {"bag": 3, "template": 4, "twostep": 4, "cubic": 3}
 # ---------------------------------------------------------------------------------------------
 @st.composite
 def st_matching(draw, tier):
-    spec = draw(Z.st_eos(families=Z.FAMILIES, weights=FAMILY_WEIGHTS[tier]))
+    spec = draw(Z.st_eos(families=Z.FAMILIES, weights=FAMILY_WEIGHTS[tier],
+                         twostep_variants=("plain", "plain", "strongT")))
     solver = "general"
     if spec["family"] in ("bag", "template") and draw(st.integers(0, 4)) == 0:
         solver = "template"
